@@ -14,7 +14,7 @@ KINDS = c09.KINDS
 class C12(Prop):
     id = 'C12'
     struct_inputs = False          # get_value() of the input variables is part of the property
-    rule_added = 'Cases as generated for C09, including the sibling-unit named assertions and bound constants.'
+    rule_added = 'Cases as generated for C09, including the sibling-unit named assertions and bound constants. A None returned by get_value for a name after the specification was evaluated is a violation.'
     rule = ('modular specifications with 1..4 named sub-specifications + the named top assertion (generated as for '
             'C09) on the 5 monitor configurations; after evaluate() / after every update(), get_value(v) of every input '
             'variable must return the data supplied and get_value(n) of every name must equal what a fresh stand-alone '
